@@ -134,9 +134,10 @@ func main() {
 		}
 	}
 	dir := *keep
+	tmpDir := ""
 	if dir == "" {
 		dir, _ = os.MkdirTemp("", "govc-vc-")
-		defer os.RemoveAll(dir)
+		tmpDir = dir
 	} else {
 		os.MkdirAll(dir, 0o755)
 	}
@@ -147,9 +148,15 @@ func main() {
 				fmt.Println(em.Script(o))
 			}
 		}
+		if tmpDir != "" {
+			os.RemoveAll(tmpDir)
+		}
 		return
 	}
 	Discharge(em, all, dir, *timeout, *workers, *keep != "")
+	if tmpDir != "" {
+		os.RemoveAll(tmpDir)
+	}
 
 	// known findings
 	var kfs []KnownFinding
